@@ -319,7 +319,14 @@ def judge(ck, exe, items, props, label=""):
         groups.setdefault(sig, []).append(k)
     ck.traces_validated += len(items) - len(mine)
     # confirmation: the shortest few of each class are executed again, alone, and judged again
-    for sig, ks in sorted(groups.items()):
+    ck.extra["rejection_classes"] = ck.extra.get("rejection_classes", 0) + len(groups)
+    known_first = sorted(groups.items(), key=lambda g: (ck.known.match(ck.prop, g[0]) is None, g[0]))
+    n_new = 0
+    for sig, ks in known_first:
+        if ck.known.match(ck.prop, sig) is None:
+            n_new += 1
+            if n_new > 16:      # enough to act on; the rest is counted only
+                continue
         ks.sort(key=lambda k: (mine[k][0], len(by_k[k]["ops"]), k))
         confirmed = None
         for k in ks[:3]:
@@ -414,7 +421,7 @@ def from_behaviour(k, b, mp, limit_bytes=512, interval_unit=None, pre=()):
 # --------------------------------------------------------------------------- TLC configurations of Rotate.tla
 DEFAULTS = dict(Limits="{4}", Sizes="{1, 3, 5}", MaxBs="{0, 1, 2, 99}", Overs="{0, 1}", Schemes="{0}", Cleans="{0, 1}",
                 Modes="{0, 1}", Freqs="{0}", Intervals="{1}", DTs="{0, 1}", DayLen=2, DayOff=0, DailyOff=1, U=1, UOff=0,
-                MaxOps=5, MaxRestarts=2, FixDaily="FALSE", Tolerated="{}", Export="FALSE")
+                MaxOps=5, MaxRestarts=2, FixDaily="FALSE", Tolerated="{}", Export="FALSE", ExportDepth=5)
 
 
 def mc_cfg(name, invariants=("ContractHolds", "TypeOK"), export=False, **consts):
@@ -430,27 +437,54 @@ def mc_cfg(name, invariants=("ContractHolds", "TypeOK"), export=False, **consts)
 
 
 def tlc_parallel(jobs):
-    """jobs: list of (label, cfgpath, kwargs). Runs them concurrently, sharing the cores."""
+    """jobs: list of (label, cfgpath, kwargs[, workers]). Runs them concurrently, sharing the cores."""
     w = max(2, vlib.NCPU // max(1, len(jobs)))
+
+    def one(j):
+        nw = j[3] if len(j) > 3 else w
+        kw = dict(heap="2g" if nw == 1 else "6g")
+        kw.update(j[2])
+        r = vlib.tlc("Rotate", j[1], workers=nw, **kw)
+        if r.error and "timeout" not in r.error:
+            vlib.log(f"[rot] TLC job {j[0]} failed ({r.error[:200]}); retrying once")
+            r = vlib.tlc("Rotate", j[1], workers=nw, **kw)
+        if r.error:
+            raise vlib.Infra(f"{j[0]}: {r.error}\n{r.out[-2000:]}")
+        return r
     with ThreadPoolExecutor(max_workers=len(jobs)) as ex:
-        futs = [ex.submit(vlib.tlc_must, "Rotate", p, workers=w, **kw) for (_, p, kw) in jobs]
+        futs = [ex.submit(one, j) for j in jobs]
         return [(jobs[i][0], f.result()) for i, f in enumerate(futs)]
 
 
-def must_hold(ck, label, r):
+def must_hold(ck, label, r, count=True):
     if r.violated:
         raise vlib.Infra(f"model {label} violates {r.violated}: the transcription and the contract disagree outside the "
                          f"known deviations (model problem, not a verdict)")
-    ck.add_tlc(r, label)
+    if count:
+        ck.add_tlc(r, label)
 
 
-def reach_selftest(ck, consts, names=("NoRotation", "NoDeletion", "NoStop", "NoRecovery")):
+def reach_jobs(ck, consts, names):
     """vacuity control: each reachability predicate must be VIOLATED (the situation is reachable in the model)."""
-    jobs = [(n, mc_cfg("Reach_" + ck.prop + "_" + n, invariants=(n,), **consts), dict(timeout=600)) for n in names]
-    for label, r in tlc_parallel(jobs):
-        if r.violated != label:
-            raise vlib.Infra(f"vacuity: situation {label} is not reachable in the model")
-        ck.add_tlc(r, "Reach_" + label)
+    return [("Reach_" + n, mc_cfg("Reach_" + ck.prop + "_" + n, invariants=(n,), **consts), dict(timeout=600), 1) for n in names]
+
+
+def reach_check(ck, res, names):
+    for n in names:
+        r = res["Reach_" + n]
+        if r.violated != n:
+            raise vlib.Infra(f"vacuity: situation {n} is not reachable in the model")
+        ck.add_tlc(r, "Reach_" + n)
+
+
+def take_behaviours(ck, res, label):
+    r = res[label]
+    b = vlib.behaviours(r)
+    if len(b) < 1000:
+        raise vlib.Infra(f"behaviour export {label} produced too few histories ({len(b)})")
+    r.out, r.prints = "", []
+    ck.add_tlc(r, label)
+    return b
 
 
 def coverage_selftest(r, actions=("AConstruct", "AWrite", "ARestart")):
